@@ -455,6 +455,7 @@ class Prog:
         self.flags = dict(copied_since_gate=False, mps_record_risk="none", rejected_before=False, contract_true_gate=False)
         self.last = {}
         self.quirks = set()
+        self.idle = [True] * N  # wires whose initial-state tensor still carries the output label
 
     def base(self):
         d = dict(prog=self.pid, cls=self.kind, N=self.N, style=self.style, psi0=self.psi0_kind,
@@ -586,9 +587,18 @@ def make_gate(P):
                 circ.apply_gates([(label, *params, *qubits)], **kw)
 
     g["call"] = call
-    g["desc"] = dict(label=label, qubits=_fmt(qubits), controls=_fmt(controls), nq=nq, parametrize=parametrize, spelling=spelling,
-                     gate_opt=str(gopts.get("contract", "")))
+    eff = str(gopts["contract"]) if "contract" in gopts else str(P.opts.get("gate_contract", ""))
+    g["desc"] = dict(label=label, qubits=_fmt(qubits), controls=_fmt(controls), nq=nq, parametrize=bool(parametrize),
+                     spelling=spelling, gate_opt=str(gopts.get("contract", "")), eff_contract=eff)
     return g
+
+
+def _state_now(P):
+    """the state the simulator holds, read without going through the query caches"""
+    circ = P.circ
+    if P.kind in ("Circuit", "CircuitDense"):
+        return np.asarray(circ.psi.to_dense([f"k{i}" for i in range(P.N)])).reshape(-1, 1)
+    return np.asarray(circ.to_dense())
 
 
 def do_gate(cx, P, g, tag="gate"):
@@ -596,6 +606,7 @@ def do_gate(cx, P, g, tag="gate"):
     circ = P.circ
     n0 = circ.num_gates
     box = {}
+    silent_iden = g["label"] == "IDEN" and not g["controls"]
 
     def thunk():
         box["ran"] = True
@@ -603,7 +614,7 @@ def do_gate(cx, P, g, tag="gate"):
             g["call"](circ)
         finally:
             box["n1"] = circ.num_gates
-        if box["n1"] != n0 + 1:
+        if box["n1"] != n0 + 1 and not (silent_iden and box["n1"] == n0):
             return f"accepted without exception but num_gates went {n0} -> {box['n1']}"
         return None
 
@@ -616,42 +627,49 @@ def do_gate(cx, P, g, tag="gate"):
         except Exception:  # noqa
             pass
         box["n1"] = circ.num_gates
-    if box["n1"] == n0 + 1:
+    recorded = box["n1"] == n0 + 1
+    if not recorded and box["n1"] != n0:
+        P.broken = f"num_gates went {n0} -> {box['n1']}"
+        return False
+    if recorded:
         P.record([g["M"], g["qubits"], g["controls"], g["label"], list(g["params"]), g["parametrize"]])
         P.flags["copied_since_gate"] = False
         if g["desc"]["gate_opt"] == "True":
             P.flags["contract_true_gate"] = True
         if g["label"] == "IDEN" and g["controls"]:
             P.quirks.add("ctrl-iden")
+        if P.kind == "Circuit" and len(g["controls"]) >= 2 and g["desc"]["eff_contract"] != "True":
+            P.quirks.add("lazy-multictrl")  # a hyper-index (COPY) network now sits in the circuit
+        if g["label"] == "SWAP" and not g["controls"]:
+            i, j = g["qubits"]
+            if P.idle[i] or P.idle[j]:
+                P.quirks.add("swap-idle")
+            P.idle[i], P.idle[j] = P.idle[j], P.idle[i]
+        elif g["label"] != "IDEN" or g["controls"]:
+            for q in list(g["qubits"]) + list(g["controls"]):
+                P.idle[q] = False
         if g["label"] == "SWAP" and P.kind == "CircuitMPS" and P.opts.get("gate_contract") in ("auto-mps", "swap+split"):
             P.flags["mps_record_risk"] = "swap"
-        return True
-    if box["n1"] != n0:
-        P.broken = f"num_gates went {n0} -> {box['n1']}"
-        return False
-    # rejected: the simulator must still hold the state of the gates actually recorded
+    # accepted or rejected: the simulator must hold the state of the gates actually recorded
     res = {}
 
     def intact():
         res["ran"] = True
         if P.kind == "PEPO":
             return None
-        if P.kind in ("Circuit", "CircuitDense"):
-            # through a fresh copy of the network: Circuit.to_dense may answer from the (still valid) cache
-            got = np.asarray(circ.psi.to_dense([f"k{i}" for i in range(P.N)])).reshape(-1, 1)
-        else:
-            got = np.asarray(circ.to_dense())
-        return close(got, P.ref.reshape(-1, 1), P.tol(), "state after the rejected gate")
+        return close(_state_now(P), P.ref.reshape(-1, 1), P.tol(), "state held by the simulator")
 
-    r2 = cx.check("apply_gate rejected: the simulator still holds the state of the gates recorded", params, intact)
+    name = ("apply_gate accepted: the simulator holds the state of the gates recorded" if recorded else
+            "apply_gate rejected: the simulator still holds the state of the gates recorded")
+    r2 = cx.check(name, params, intact, nontrivial=P.kind != "PEPO")
     if "ran" not in res:
         try:
             r2 = "ok" if intact() is None else "violation"
         except Exception:  # noqa
             r2 = "violation"
     if r2 == "violation":
-        P.broken = "state corrupted by a rejected gate"
-    return False
+        P.broken = "the state held by the simulator is not the state of the recorded gates"
+    return recorded
 
 
 # ---- queries: each returns (name, extra params, thunk) with all random choices drawn before
@@ -1181,7 +1199,7 @@ def programs(cx):
         _ctp._IS_WORKER = True
     except Exception:  # noqa
         pass
-    nprog = 3600 if cx.quick else 36000
+    nprog = 2400 if cx.quick else 30000
     only_h = _hist_from_key(cx.only_key) if cx.only_key is not None else None
     skip_to = _hist_from_key(cx.resume_after) if cx.resume_after is not None else None
     for pid in range(nprog):
